@@ -42,6 +42,30 @@ pub fn exec(it: &mut Interp, toks: &[&str], out: &mut Vec<String>) -> bool {
                 }
             }
         }
+        ["setmod" | "setcat", slot, v] => {
+            // `set_default_modifier` / `set_default_categories` (`def`) or an assignment through
+            // `modifier_mut` / `categories_mut`, in place on the ontology of the slot
+            let Ok(slot) = slot.parse::<u32>() else { return false };
+            let ids = if *v == "def" { None } else { let Some(l) = unids(v) else { return false }; Some(l) };
+            let Some(o) = it.slots.get_mut(&slot) else {
+                out.push("noslot".to_string());
+                return true;
+            };
+            let r = match (toks[0], ids) {
+                ("setmod", None) => o.set_default_modifier().is_ok(),
+                (_, None) => o.set_default_categories().is_ok(),
+                ("setmod", Some(l)) => {
+                    *o.modifier_mut() = hpo::term::HpoGroup::from(l);
+                    true
+                }
+                (_, Some(l)) => {
+                    *o.categories_mut() = hpo::term::HpoGroup::from(l);
+                    true
+                }
+            };
+            out.push(if r { "r ok" } else { "r err" }.to_string());
+            true
+        }
         ["oracle", "sub", src, root, leaves] => {
             let (Ok(src), Ok(root), Some(leaves)) = (src.parse::<u32>(), root.parse::<u32>(), unids(leaves)) else {
                 return false;
